@@ -446,8 +446,9 @@ def state_cases(quick):
         out.append(dd)
     # elastic strain energy per phase (it enters the driving force for nucleation and the Gibbs-Thomson term of every size class alike)
     strain = {'P1': {'eig': [0.012, 0.012, 0.012], 'calc': False}, 'P2': {'eig': [0.008, 0.008, 0.004], 'calc': False}}
-    for system in ('bin', 'tern'):
-        for nph in (1, 2):
+    # (ternary runs evaluate the Eshelby energy for every size class at every step, 30-350 s per run: thorough tier only)
+    for system in (['bin'] if quick else ['bin', 'tern']):
+        for nph in [1, 2]:
             for it in ('euler', 'rk4'):
                 for temp in (['iso'] if quick else ['iso', 'hrh']):
                     dd = dict(base)
